@@ -426,9 +426,21 @@ static void c10_domain(Ctx& c, std::vector<long long>* I, std::vector<i128>* C) 
   std::vector<i128> w;
   const i128 cmax = ref::secs_from_civil(Civil{IMAX, 12, 31, 23, 59, 59});
   const i128 cmin = ref::secs_from_civil(Civil{IMIN, 1, 1, 0, 0, 0});
-  for (i128 t : v) for (int o : c.offs) w.push_back(t + o);
+  // the offsets that matter at the ends of the range are the first and the last ones (and the extremes); a zone with
+  // hundreds of distinct offsets (the 255-type kinds) does not get the full product
+  std::vector<int> offs(c.offs.begin(), c.offs.end());
+  if (offs.size() > 14) {
+    std::vector<int> keep = {*c.offs.begin(), *c.offs.rbegin()};
+    const auto& ty = c.rz.types;
+    for (size_t i = 0; i < ty.size(); ++i) if (i < 4 || i + 4 >= ty.size()) keep.push_back(ty[i].off);
+    if (c.rz.has_rule) { keep.push_back(c.rz.rule_std.off); keep.push_back(c.rz.rule_dst.off); }
+    std::sort(keep.begin(), keep.end());
+    keep.erase(std::unique(keep.begin(), keep.end()), keep.end());
+    offs = keep;
+  }
+  for (i128 t : v) for (int o : offs) w.push_back(t + o);
   for (int d = 0; d <= 3; ++d) { w.push_back(cmax - d); w.push_back(cmin + d); }
-  for (int o : c.offs) for (int d = -3; d <= 3; ++d) { w.push_back(IMAX + o + d); w.push_back(IMIN + o + d); }
+  for (int o : offs) for (int d = -3; d <= 3; ++d) { w.push_back(IMAX + o + d); w.push_back(IMIN + o + d); }
   std::sort(w.begin(), w.end());
   w.erase(std::unique(w.begin(), w.end()), w.end());
   for (i128 s : w) if (s >= cmin && s <= cmax) C->push_back(s);
